@@ -318,6 +318,9 @@ def c_unlink_rule(res, fx, rule='C-CACHED'):
             if l_['k'] != 'MemberExpr' or l_.get('n') not in ('prevField', 'nextField') or not l_['ch']:
                 continue
             base = A.strip_casts(l_['ch'][0])
+            if base['k'] == 'DeclRefExpr' and not any(p_.get('d') == base.get('d') for p_ in f.params):
+                from msa import guards as G_
+                base = A.strip_casts(G_.local_init(f, base))          # `prev = X->prevField; prev->nextField = …` names the neighbour through a local
             # neighbour write:  X->prevField->nextField = …   /   X->nextField->prevField = …
             if base['k'] == 'MemberExpr' and base.get('n') in ('prevField', 'nextField') and base['ch'] and A.strip_casts(base['ch'][0])['k'] == 'DeclRefExpr':
                 links.setdefault(A.strip_casts(base['ch'][0]).get('d'), {'nb': [], 'own': {}})['nb'].append(a)
